@@ -124,8 +124,8 @@ def build_impl_index(fns, srcroot):
         if mm:
             tr = mm.group(1).split('::')[-1] if mm.group(1) else None
             targ = mm.group(2)
-            idx[(mm.group(3), tr, meth)] = n
-            if targ: idx[(mm.group(3), '%s<%s>' % (tr, targ), meth)] = n
+            if targ: idx[(mm.group(3), '%s<%s>' % (tr, re.sub(r'\w+::', '', targ).replace(' ', '')), meth)] = n
+            else: idx[(mm.group(3), tr, meth)] = n
     return idx
 
 def parse_enums(srcroot):
